@@ -69,6 +69,8 @@ def pool(seed, tier):
     for b, q in (('near_sym_a', 'qshift_a'), ('near_sym_a', 'qshift_b'), ('near_sym_b', 'qshift_a'), ('legall', 'qshift_06')):
         cfgs.append({'kind': 'dtf', 'biort': b, 'qshift': q, 'J': 2, 'shape': [8, 8]})
         cfgs.append({'kind': 'dti', 'biort': b, 'qshift': q, 'J': 2, 'shape': [8, 8]})
+    for b, q in (('antonini', 'qshift_c'), ('near_sym_b', 'qshift_d'), ('legall', 'qshift_c'), ('near_sym_a', 'qshift_32')):
+        cfgs.append({'kind': 'dtf', 'biort': b, 'qshift': q, 'J': 2, 'shape': [8, 12]})
     cfgs += [{'kind': 'dtf', 'biort': 'near_sym_a', 'qshift': 'qshift_a', 'J': 3, 'shape': [10, 14]},
              {'kind': 'dtf', 'biort': 'near_sym_a', 'qshift': 'qshift_a', 'J': 1, 'shape': [7, 9]},
              {'kind': 'scat1', 'biort': 'near_sym_a', 'qshift': 'qshift_a', 'magbias': 1e-2, 'colour': False, 'shape': [8, 8]},
@@ -235,13 +237,19 @@ def hist_main(specfile, cfgjson, out):
             return 'ulp', 'max %.2f ulp from the history-free reference' % worst
         return 'differs', 'differs from the history-free reference by %.3g ulp' % worst
 
+    focus = cfg.get('focus')
+    hot = [s for s in specs if s['cfg_id'] in focus] if focus else None
+
     def worker(tid):
         rnd = random.Random(hseed * 1000 + tid)
         inject.thread_init(hseed * 7919 + tid, cfg.get('p_yield', 0.02))
         for k in range(nops):
-            spec = specs[rnd.randrange(len(specs))] if rnd.random() < 0.85 else specs[rnd.randrange(min(12, len(specs)))]
+            if hot:      # few keys, many threads: every thread hammers the same few module instances
+                spec = hot[rnd.randrange(len(hot))]
+            else:
+                spec = specs[rnd.randrange(len(specs))] if rnd.random() < 0.85 else specs[rnd.randrange(min(12, len(specs)))]
             with_grad = rnd.random() < 0.3
-            fresh = rnd.random() < 0.2
+            fresh = rnd.random() < (0.05 if hot else 0.2)
             fault = cfg.get('faults') and rnd.random() < 0.08
             ev = {'thread': tid, 'k': k, 'spec': spec['id'], 'grad': with_grad, 'fresh': fresh, 'fault': bool(fault)}
             log(dict(ev, ev='call'))
@@ -338,6 +346,14 @@ def driver(tier, seed, t0):
         for (nt, nops, faults) in plan:
             hcfgs.append({'threads': nt, 'ops': nops, 'faults': faults, 'seed': seed * 100 + len(hcfgs),
                           'p_yield': [0.01, 0.05, 0.2, 0.0][len(hcfgs) % 4], 'inject': True})
+    # hot histories: the configurations are cut into groups of 4 neighbours (near-colliding by
+    # construction of the pool) and each group is hammered by 8 threads sharing the module instances
+    ncfg = 1 + max(s['cfg_id'] for s in specs)
+    groups = [list(range(g, min(g + 4, ncfg))) for g in range(0, ncfg, 4)]
+    for gi, grp in enumerate(groups):
+        for rep in range(1 if tier == 'quick' else 3):
+            hcfgs.append({'threads': 8, 'ops': 24 if tier == 'quick' else 60, 'faults': False, 'seed': seed * 100 + 50 + len(hcfgs),
+                          'p_yield': [0.05, 0.2, 0.0][(gi + rep) % 3], 'inject': True, 'focus': grp})
     with ThreadPoolExecutor(6) as ex:
         futs = []
         for i, hc in enumerate(hcfgs):
